@@ -37,8 +37,8 @@ ASSUMPTIONS = [
 EXPECTED_PROBES = ["ttc.replica_compared", "ttc.untouched_member_checked", "xml.before_after_save_compared", "xml.dump_vs_reference_compared", "hashsweep.runs_compared", "order.pairs", "pipe.ok", "pipe.build", "pipe.merge", "pipe.instance", "pipe.fea", "pipe.feagen", "pipe.subset", "pipe.ttx", "save.checked", "op.savexml", "op.failsave.compile", "op.failsave.dest", "lazy.True", "lazy.None", "lazy.False", "edit.reorder", "edit.subset", "edit.scale", "edit.instantiate"]
 
 TIERS = {
-    "quick": {"budget_s": 170, "determinism_sample": 16, "n": {"hist": 2700, "hist_fail": 1000, "hist_ensure": 700, "second_save": 900, "clock": 400, "ttc": 300, "pipe": 500, "order": 40, "hashsweep": 16}, "minimise_s": 60, "max_minimise": 3},
-    "thorough": {"budget_s": 1500, "determinism_sample": 200, "n": {"hist": 16000, "hist_fail": 5000, "hist_ensure": 4000, "second_save": 1400, "clock": 1500, "ttc": 2500, "pipe": 6000, "order": 500, "hashsweep": 320}, "minimise_s": 180, "max_minimise": 6},
+    "quick": {"budget_s": 900, "determinism_sample": 16, "n": {"hist": 2700, "hist_fail": 1000, "hist_ensure": 700, "second_save": 900, "clock": 400, "ttc": 300, "pipe": 500, "order": 40, "hashsweep": 16}, "minimise_s": 60, "max_minimise": 3},
+    "thorough": {"budget_s": 5400, "determinism_sample": 200, "n": {"hist": 16000, "hist_fail": 5000, "hist_ensure": 4000, "second_save": 1400, "clock": 1500, "ttc": 2500, "pipe": 6000, "order": 500, "hashsweep": 320}, "minimise_s": 180, "max_minimise": 6},
 }
 
 OBSERVE_OPS = ["touch", "contains", "keys", "glyphorder", "glyphset", "bestcmap", "tabledata", "save", "savexml", "deepcopy", "revmap", "ensure_table"]
@@ -63,6 +63,7 @@ def prepare(ctx):
             okbin += k.startswith("bin:")
         else:
             reasons[v] = reasons.get(v, 0) + 1
+    corpus.publish_tag_index()
     ctx.world["eligible"] = ok
     ctx.world["bins"] = len(corpus.binaries())
     ctx.world["okbin"] = okbin
@@ -1298,10 +1299,16 @@ def exec_clock(ctx, h, src, scratch):
             fonts = [open_font(m, True) for m in members]
             coll = TTCollection()
             coll.fonts = fonts
+            flags = [f.recalcTimestamp for f in fonts]
             b = io.BytesIO()
             coll.save(b, shareTables=h["share"])
             out = b.getvalue()
-        reads = list(clock.__dict__["reads"])
+            flags_after = [f.recalcTimestamp for f in fonts]
+            n_reads = len(clock.__dict__["reads"])
+            # a later operation on a member: saved alone, it is stamped with the time of THAT save
+            member_out = save(fonts[0])
+            member_reads = list(clock.__dict__["reads"])[n_reads:]
+        reads = list(clock.__dict__["reads"])[:n_reads]
         events.append([mode, prng.bdigest(out), len(reads), len(members)])
         probes["clock.ttc"] = 1
         probes["clock.ttc.members"] = len(members)
@@ -1309,7 +1316,13 @@ def exec_clock(ctx, h, src, scratch):
         for n in range(len(members)):
             tb = container.tables_of(out, fontNumber=n)
             mods.append(int.from_bytes(tb["head"][HEAD_MOD_OFF : HEAD_MOD_OFF + 8], "big", signed=True))
-        if len(set(mods)) != 1:
+        mmod = int.from_bytes(container.tables_of(member_out)["head"][HEAD_MOD_OFF : HEAD_MOD_OFF + 8], "big", signed=True)
+        probes["clock.ttc.member_saved_after"] = 1
+        if flags_after != flags:
+            res["violation"] = {"class": "ttc-save-changes-member-state", "detail": "TTCollection.save left the members' recalcTimestamp at %s (was %s) font=%s" % (flags_after, flags, h["font"])}
+        elif mmod not in [int(v - epoch_diff) for v in member_reads]:
+            res["violation"] = {"class": "member-saved-after-collection-keeps-stale-timestamp", "detail": "a member saved on its own after the collection save carries head.modified=%d, none of the %d clock readings of that save (%s); the collection was stamped %s font=%s" % (mmod, len(member_reads), [int(v - epoch_diff) for v in member_reads][:3], mods[:1], h["font"])}
+        elif len(set(mods)) != 1:
             res["violation"] = {"class": "ttc-members-differ-in-modified", "detail": "TTC members carry different head.modified %s under a ticking clock (share=%s)" % (mods, h["share"])}
         elif mods[0] not in [int(v - epoch_diff) for v in reads]:
             res["violation"] = {"class": "modified-not-a-clock-reading", "detail": "TTC head.modified=%d is none of the clock readings %s" % (mods[0], reads[:4])}
